@@ -7,19 +7,19 @@ RULE = ("seeded random histories on committees of 1, 4 and 7 members over a pool
         "newEpoch/1, wrong arity, the Netmap contract itself, non-contracts, 19/21-byte hashes), ticks with epoch in "
         "{cur-1,cur,cur+1,cur+2,cur+3..11,cur+10..12,0,-1,127..129,255..257,65535,65536}, one block in seven holds 2-3 transactions; "
         "every 5th case is a malformed stream (key lengths 0/20/32/34, non-curve keys, blobs of 0/2/34/35 bytes); every 8th case "
-        "(tagged nonwf, monitors off) uses epochs around and beyond 2^31/2^32; in addition 4 (thorough: 10 per shard) directed long cases per seed cross the wrap of the snapshot ring: add candidates in both lists (always incl. the parity pair), 1-2 ticks, empty the legacy list, the structured list or both with every removing method, 11-13 further successful ticks incl. jumps (each alone in its block, both publications judged at every tick), optionally re-add after the wrap, 1-2 rounds, 12-35 ticks. Observed after every block: decoded raw storage of all "
+        "(tagged nonwf, monitors off) uses epochs around and beyond 2^31/2^32; in addition 4 (thorough: 10 per shard) directed long cases per seed cross the wrap of the snapshot ring: add candidates in both lists (always incl. the parity pair), 1-2 ticks, empty the legacy list, the structured list or both with every removing method, 11-13 further successful ticks incl. jumps (each alone in its block, both publications judged at every tick), optionally re-add after the wrap, 1-2 rounds, 12-35 ticks; and 4 directed resized-ring cases per seed and shard (both tiers): updateSnapshotCount(k), k in {1, 2, 255, 256}, Alphabet-signed, is the very first invocation on the fresh deployment (case parameter count=k, not an operation of the case; model root initWith k; observed on the raw storage: count k, id 0, slots 0..k-1 for k < 10, slots 0 and k-9..k-1 for k > 10, no FAULT for any of the four), a refused call shows that state, candidates go into both lists (incl. the parity pair), then ticks walk over 126..130 and jump into 254..258 or the other way round (each alone in its block, both publications judged at every tick), the candidate sets optionally changed between the stretches; corpus/C06/count256-epoch128.ops (count 256, ticks 128, 255, 256, 257) is replayed first on every run. Observed after every block: decoded raw storage of all "
         "key families + epoch/lastEpochBlock/netmap/netmapCandidates/listCandidates/listNodes + the probes' call records. "
         "distinct_nontrivial = distinct (operation, observation) pairs of HALTed invocations")
 _base = dict(driver="drv_netmap", harness="netmap", shards=dict(quick=1, thorough=16), rule=RULE, facts=["consts"],
              assumptions=[
                  "subscriber contracts do not call back into the Netmap contract while newEpoch runs (a subscriber is modelled by whether its newEpoch(e) returns or panics)",
-                 "the snapshot count stays at DefaultSnapshotCount (updateSnapshotCount is C08's, model NetmapRing); theorems need only count > 0",
+                 "the snapshot count is DefaultSnapshotCount or was changed ONCE by updateSnapshotCount(k) as the first invocation on the untouched deployment (further roots initWith k of the histories; the theorems *_resized hold for every k > 0, generated k in {1, 2, 255, 256}); a resize later in a history is C08's (model NetmapRing) and not generated here; theorems need only count > 0",
                  "structured publication is proved for epochs below 2^32 (fourBytesBE keeps 32 bits): beyond that the statement is false of the code, kernel-checked witness C06.structured_publication_wraps_at_2pow32, replayed on the contract by corpus/C06/epoch-wrap-2pow32.ops",
                  "runtime.CheckWitness(publicKey) is modelled as membership of the key in the signer set (Global scope); CheckWitness of a 33-byte string that is not a curve point FAULTs, as does a failed check",
              ])
 PROPS = {
-    "C06": dict(_base, lean=["NeoFS.Props.C06"], monitors=["C06"]),
-    "C07": dict(_base, lean=["NeoFS.Props.C07"], monitors=["C07"]),
+    "C06": dict(_base, lean=["NeoFS.Props.C06"], monitors=["C06"], facts=["consts", "footprint"]),
+    "C07": dict(_base, lean=["NeoFS.Props.C07"], monitors=["C07"], facts=["consts", "footprint"]),
 }
 NOTE = ("Theorems are about NeoFS/Model/Netmap.lean, a branch-by-branch model of contracts/netmap/contract.go (AddPeer, AddPeerIR, AddNode, "
         "DeleteNode, UpdateState, UpdateStateIR, NewEpoch, SubscribeForNewEpoch and the read methods). Trusted: Lean kernel; axioms "
@@ -29,7 +29,7 @@ NOTE = ("Theorems are about NeoFS/Model/Netmap.lean, a branch-by-branch model of
         "ledger.CurrentIndex = index of the persisting block - 1); the Go harness and its monitors.")
 TECH = "Lean 4 invariant and refinement proofs over a hand-written model + differential correspondence check against the compiled contracts"
 CLAIMS = {
-    "C06": dict(text="Unbounded proofs over all histories from the deployed state: newEpoch(e) HALTs iff Alphabet-witnessed, e > current epoch and no "
+    "C06": dict(text="Unbounded proofs over all histories from the deployed state (and, for the invariant, the success condition, both publications and the fan-out, from the deployment whose snapshot count was first changed to any k > 0): newEpoch(e) HALTs iff Alphabet-witnessed, e > current epoch and no "
                      "subscriber rejects; a FAULTed call changes nothing; the pair (epoch, subscriber list) equals the specification's fold over the history, "
                      "hence the epoch only grows; a successful tick records e and the height, makes netmap() the non-offline (= all) legacy candidates and "
                      "listNodes(e) the structured candidates (for e < 2^32; beyond that a kernel-checked counterexample), leaves both candidate lists unchanged "
